@@ -133,10 +133,12 @@ pub fn addr<'a, R: Reader<Offset = usize> + 'a>(
         );
     }
     let asz = case.knob("addr_size", 8) as u8;
-    let bases = [0usize, 8, 16, n.saturating_sub(1), n, n + 1, usize::MAX];
+    let sel = case.knob("sel", 0) as usize;
+    let bases = [0usize, 8, n, usize::MAX];
+    let alt = [1u8, 2, 4, 8][sel % 4];
     for &b in &bases {
         for idx in ladder((n / asz.max(1) as usize) as u64) {
-            for &sz in &[asz, 1, 2, 4, 8, 0, 3, 255] {
+            for &sz in &[asz, alt] {
                 let _ = call(ctx, "addr.get_address", || {
                     sec.get_address(sz, DebugAddrBase(b), DebugAddrIndex(idx as usize))
                 });
@@ -175,7 +177,7 @@ pub fn strs<'a, R: Reader<Offset = usize> + 'a>(
     }
     let n = ob.len();
     for &fmt in &[Format::Dwarf32, Format::Dwarf64] {
-        for &b in &[0usize, 8, 16, n.saturating_sub(1), n, n + 1, usize::MAX] {
+        for &b in &[0usize, 8, n, usize::MAX] {
             for idx in ladder((n / 4) as u64) {
                 if let Some(o) = call(ctx, "str_offsets.get_str_offset", || {
                     offs.get_str_offset(fmt, DebugStrOffsetsBase(b), DebugStrOffsetsIndex(idx as usize))
